@@ -9,7 +9,7 @@ use cairo_lang_sierra::program::{Function, GenStatement, Program};
 use serde_json::{Value, json};
 
 use crate::prover::{AppliedLie, Fault, FaultyProver, OccLog};
-use crate::types::{Ty, TypeTable, Val};
+use crate::types::{RetTy, Ty, TypeTable, Val};
 
 /// A compiled function ready to be run many times.
 pub struct Target {
@@ -20,6 +20,8 @@ pub struct Target {
     pub func: Function,
     pub params: Vec<Ty>,
     pub supported: Result<(), String>,
+    /// Decoder of the result when it holds pointers (arrays, boxes); `None` = compare raw felts.
+    pub ret_decoder: Option<RetTy>,
     /// pc (absolute, in the assembled program) -> generic libfunc name, for hint sites.
     pub header_len: usize,
     stmt_offsets: Vec<(usize, usize, String)>,
@@ -73,9 +75,13 @@ impl Target {
         if user_rets.len() > 1 {
             supported = Err("more than one user return value".into());
         }
+        let mut ret_decoder = None;
         for r in user_rets {
             if !tt.result_pointer_free(r) {
-                supported = Err(format!("result type holds a pointer: {:?}", r.debug_name));
+                match tt.result_decoder(r) {
+                    Some(d) => ret_decoder = Some(d),
+                    None => supported = Err(format!("result type holds a pointer that cannot be dereferenced: {:?}", r.debug_name)),
+                }
             }
         }
         let info = builder
@@ -107,6 +113,7 @@ impl Target {
             func,
             params,
             supported,
+            ret_decoder,
             header_len,
             stmt_offsets,
             initial_required_gas,
@@ -151,6 +158,14 @@ impl Target {
         let (outcome, vm_steps) = match r {
             Ok(Ok(res)) => {
                 let value = match &res.value {
+                    RunResultValue::Success(v) if self.ret_decoder.is_some() => {
+                        let mut s = String::new();
+                        match self.ret_decoder.as_ref().unwrap().decode(v, &res.memory, &mut s, 0) {
+                            Ok(()) => format!("ok{{{s}}}"),
+                            // A successful run whose result is not even a well-formed value.
+                            Err(e) => format!("ok-malformed{{{e}}}"),
+                        }
+                    }
                     RunResultValue::Success(v) => {
                         format!("ok[{}]", v.iter().map(|x| x.to_biguint().to_string()).collect::<Vec<_>>().join(","))
                     }
